@@ -603,6 +603,11 @@ func closureThrough(call *ssa.Call, depth int) (*ssa.Function, []*ssa.Call, []ss
 		if !ok {
 			continue
 		}
+		// a constructor that specialises on the number of its variadic arguments: only the returns this call can
+		// reach count (conditions on len(parameter) decided by the length of the literal list at the call)
+		if !returnFeasible(r, call) {
+			continue
+		}
 		rv := r.Results[0]
 		if ct, ok := rv.(*ssa.ChangeType); ok {
 			rv = ct.X
@@ -961,4 +966,85 @@ func (m *Model) parseViaHelper(info *types.Info, obj *types.Var, call *ast.CallE
 		}
 	}
 	return n
+}
+
+// returnFeasible: no condition dominating the return is known to be false for
+// this call. Only comparisons of len(parameter) with a constant are decided,
+// for a parameter bound to a literal list (or nil) at the call.
+func returnFeasible(r *ssa.Return, call *ssa.Call) bool {
+	callee := r.Parent()
+	staticLen := func(v ssa.Value) (int64, bool) {
+		ln, ok := v.(*ssa.Call)
+		if !ok || !core.IsBuiltin(&ln.Call, "len") {
+			return 0, false
+		}
+		subject := ln.Call.Args[0]
+		// a parameter that lives in a cell because a closure captures it: the cell's only store is the parameter
+		if ld, ok := subject.(*ssa.UnOp); ok && ld.Op == token.MUL {
+			if al, ok := ld.X.(*ssa.Alloc); ok {
+				var st *ssa.Store
+				n := 0
+				for _, ref := range *al.Referrers() {
+					if x, ok := ref.(*ssa.Store); ok && x.Addr == ssa.Value(al) {
+						st = x
+						n++
+					}
+				}
+				if n == 1 {
+					subject = st.Val
+				}
+			}
+		}
+		for i, p := range callee.Params {
+			if subject != ssa.Value(p) || i >= len(call.Call.Args) {
+				continue
+			}
+			switch a := call.Call.Args[i].(type) {
+			case *ssa.Const:
+				if a.Value == nil {
+					return 0, true
+				}
+			case *ssa.Slice:
+				if al, ok := a.X.(*ssa.Alloc); ok && a.Low == nil && a.High == nil {
+					if at, ok := al.Type().Underlying().(*types.Pointer).Elem().Underlying().(*types.Array); ok {
+						return at.Len(), true
+					}
+				}
+			}
+		}
+		return 0, false
+	}
+	for _, de := range core.DominatingConds(r.Block()) {
+		cond, val := core.StripNot(de.Cond, de.Val)
+		bo, ok := cond.(*ssa.BinOp)
+		if !ok {
+			continue
+		}
+		n, okN := staticLen(bo.X)
+		k, okK := core.ConstInt(bo.Y)
+		if !okN || !okK {
+			continue
+		}
+		var truth bool
+		switch bo.Op {
+		case token.EQL:
+			truth = n == k
+		case token.NEQ:
+			truth = n != k
+		case token.LSS:
+			truth = n < k
+		case token.LEQ:
+			truth = n <= k
+		case token.GTR:
+			truth = n > k
+		case token.GEQ:
+			truth = n >= k
+		default:
+			continue
+		}
+		if truth != val {
+			return false
+		}
+	}
+	return true
 }
